@@ -319,6 +319,8 @@ type QGen struct {
 	F      QFeat
 	frags  []string
 	nfrag  int
+	// fragConds: (name, type condition) of the fragments defined so far
+	fragConds [][2]string
 	Vars   map[string]interface{}
 	vdefs  []string
 	Feats  map[string]bool
@@ -417,17 +419,19 @@ func (g *QGen) sel(typeName string, depth int, lvl *level) string {
 			}
 			tdef := g.Schema.Types[ft.NamedType]
 			s := f.Name
+			argText := ""
 			if len(f.Arguments) > 0 {
 				ids := []string{"u1", "u2", "p1", "c1", "d2", "zzz"}
 				if g.F.ArgVars && g.R.Intn(2) == 0 {
 					name := fmt.Sprintf("a%d", len(g.vdefs))
 					g.vdefs = append(g.vdefs, "$"+name+": ID!")
 					g.Vars[name] = ids[g.R.Intn(len(ids)-1)]
-					s += fmt.Sprintf("(id: $%s)", name)
+					argText = fmt.Sprintf("(id: $%s)", name)
 					g.feat("arg-var")
 				} else {
-					s += fmt.Sprintf("(id: %q)", ids[g.R.Intn(len(ids))])
+					argText = fmt.Sprintf("(id: %q)", ids[g.R.Intn(len(ids))])
 				}
+				s += argText
 				g.feat("args")
 			}
 			if key != f.Name {
@@ -444,6 +448,17 @@ func (g *QGen) sel(typeName string, depth int, lvl *level) string {
 					lvl.sub[key] = newLevel()
 				}
 				s += g.directive(true) + " { " + g.sel(tdef.Name, depth-1, lvl.sub[key]) + " }"
+				if argText != "" && g.R.Intn(4) == 0 {
+					// the same field with the same arguments a second time under a key of its own, with a selection of
+					// its own: two places of the response that describe one object
+					twin := fmt.Sprintf("tw%d", len(parts))
+					if _, taken := used[twin]; !taken {
+						used[twin] = f.Name
+						lvl.sub[twin] = newLevel()
+						s += " " + twin + ": " + f.Name + argText + " { " + g.sel(tdef.Name, depth-1, lvl.sub[twin]) + " }"
+						g.feat("same-args-twice")
+					}
+				}
 			} else if f.Name != "id" || g.F.CondID {
 				s += g.directive(false)
 			}
@@ -473,10 +488,26 @@ func (g *QGen) sel(typeName string, depth int, lvl *level) string {
 					g.feat("named-narrowing")
 				}
 			}
+			if g.R.Intn(3) == 0 {
+				// spread a fragment that is already defined (on this type or on one of its possible types) once more:
+				// a document's fragments are shared by its spreads, its operations and every plan made of it
+				var fit []string
+				for _, fr := range g.fragConds {
+					if fr[1] == typeName || fr[1] == cond {
+						fit = append(fit, fr[0])
+					}
+				}
+				if len(fit) > 0 {
+					g.feat("named-respread")
+					parts = append(parts, "..."+fit[g.R.Intn(len(fit))]+g.directive(true))
+					continue
+				}
+			}
 			name := fmt.Sprintf("F%d", g.nfrag)
 			g.nfrag++
 			inner := g.sel(cond, depth-1, lvl)
 			g.frags = append(g.frags, fmt.Sprintf("fragment %s on %s { %s }", name, cond, inner))
+			g.fragConds = append(g.fragConds, [2]string{name, cond})
 			g.feat("named")
 			parts = append(parts, "..."+name+g.directive(true))
 		}
@@ -507,7 +538,7 @@ func (g *QGen) sel(typeName string, depth int, lvl *level) string {
 func (g *QGen) Query(opName string) string {
 	g.Vars = map[string]interface{}{}
 	g.Feats = map[string]bool{}
-	g.frags, g.vdefs, g.nfrag = nil, nil, 0
+	g.frags, g.vdefs, g.nfrag, g.fragConds = nil, nil, 0, nil
 	d := g.F.Depth
 	if d == 0 {
 		d = 3
